@@ -792,6 +792,96 @@ def eventV3_eventV3_Sign : List String := [
   "return &eventV3{eventV2: *e.eventV2.Sign(signingName, keyID, privateKey).(*eventV2)}"
 ]
 
+def event_EventValidationError_Error : List String := [
+  "func func() string",
+  "return e.Message"
+]
+
+def event__SplitID : List String := [
+  "func func(sigil byte, id string) (local string, domain spec.ServerName, err error)",
+  "if len(id) == 0 || id[0] != sigil {",
+  "return \"\", \"\", fmt.Errorf(\"gomatrixserverlib: invalid ID %q doesn't start with %q\", id, sigil)",
+  "}",
+  "parts := strings.SplitN(id, \":\", 2)",
+  "if len(parts) != 2 {",
+  "return \"\", \"\", fmt.Errorf(\"gomatrixserverlib: invalid ID %q missing ':'\", id)",
+  "}",
+  "return parts[0][1:], spec.ServerName(parts[1]), nil"
+]
+
+def event__checkID : List String := [
+  "func func(id, kind string, sigil byte) (err error)",
+  "if _, err = domainFromID(id); err != nil {",
+  "return",
+  "}",
+  "if id[0] != sigil {",
+  "err = fmt.Errorf(\"gomatrixserverlib: invalid %s ID, wanted first byte to be '%c' got '%c'\", kind, sigil, id[0])",
+  "return",
+  "}",
+  "if l := utf8.RuneCountInString(id); l > maxIDLength {",
+  "err = EventValidationError{Code: EventValidationTooLarge, Message: fmt.Sprintf(\"gomatrixserverlib: %s ID is too long, length %d > maximum %d\", kind, l, maxIDLength)}",
+  "return",
+  "}",
+  "if l := len(id); l > maxIDLength {",
+  "err = EventValidationError{Code: EventValidationTooLarge, Message: fmt.Sprintf(\"gomatrixserverlib: %s ID is too long, length %d bytes > maximum %d bytes\", kind, l, maxIDLength), Persistable: true}",
+  "return",
+  "}",
+  "return"
+]
+
+def event__checkRoomIDField : List String := [
+  "func func(id string) error",
+  "if err := checkID(id, \"room\", '!'); err != nil {",
+  "if verr, ok := err.(EventValidationError); ok && verr.Persistable {",
+  "verr.Persistable = false",
+  "return verr",
+  "}",
+  "return err",
+  "}",
+  "if _, err := spec.NewRoomID(id); err != nil {",
+  "return fmt.Errorf(\"gomatrixserverlib: invalid room ID %q: %w\", id, err)",
+  "}",
+  "return nil"
+]
+
+def event__checkUntrustedEventJSON : List String := [
+  "func func(eventJSON []byte) error",
+  "if name, found := duplicateJSONKey(eventJSON); found {",
+  "return BadJSONError{fmt.Errorf(\"gomatrixserverlib: duplicate key %q in event JSON\", name)}",
+  "}",
+  "var variant string",
+  "gjson.ParseBytes(eventJSON).ForEach(func(key, _ gjson.Result) bool { for _, name := range eventJSONFieldNames { if key.Str != name && strings.EqualFold(key.Str, name) { variant = key.Str return false } } return true })",
+  "if variant != \"\" {",
+  "return BadJSONError{fmt.Errorf(\"gomatrixserverlib: key %q in event JSON is a case variant of an event field\", variant)}",
+  "}",
+  "return nil"
+]
+
+def event__duplicateJSONKey : List String := [
+  "func func(data []byte) (name string, found bool)",
+  "name, found, _ = jsonWalk{decodeName: func(raw []byte, escaped bool) (string, bool) { key := string(raw[1 : len(raw)-1]) if escaped && json.Unmarshal(raw, &key) != nil { return \"\", false } return key, true }}.duplicateName(data)",
+  "return name, found"
+]
+
+def event__jsonFieldNames : List String := [
+  "func func(t reflect.Type) []string",
+  "var names []string",
+  "for i := 0; i < t.NumField(); i++ {",
+  "field := t.Field(i)",
+  "tag, _, _ := strings.Cut(field.Tag.Get(\"json\"), \",\")",
+  "switch {",
+  "case field.Anonymous && tag == \"\" && field.Type.Kind() == reflect.Struct:",
+  "names = append(names, jsonFieldNames(field.Type)...)",
+  "case !field.IsExported() || tag == \"-\":",
+  "case tag != \"\":",
+  "names = append(names, tag)",
+  "default:",
+  "names = append(names, field.Name)",
+  "}",
+  "}",
+  "return names"
+]
+
 def event_builder_EventBuilder_AddAuthEvents : List String := [
   "func func(provider AuthEventProvider) error",
   "eventsNeeded, err := StateNeededForProtoEvent(&ProtoEvent{Type: eb.Type, StateKey: eb.StateKey, Content: eb.Content, SenderID: eb.SenderID, Version: eb.version})",
@@ -923,6 +1013,76 @@ def event_builder__toEventReference : List String := [
   "return []eventReference{}",
   "}",
   "return refs"
+]
+
+def event_jsonWalk_duplicateName : List String := [
+  "func func(data []byte) (name string, found bool, err error)",
+  "var stack []map[string]struct{}",
+  "expectKey := false",
+  "skipping := false",
+  "for i := 0; i < len(data); i++ {",
+  "switch data[i] {",
+  "case '{':",
+  "if skipping {",
+  "stack = append(stack, nil)",
+  "break",
+  "}",
+  "stack = append(stack, map[string]struct{}{})",
+  "expectKey = true",
+  "case '[':",
+  "stack = append(stack, nil)",
+  "expectKey = false",
+  "case '}', ']':",
+  "if len(stack) == 0 {",
+  "return \"\", false, nil",
+  "}",
+  "stack = stack[:len(stack)-1]",
+  "expectKey = false",
+  "if len(stack) == 0 {",
+  "skipping = false",
+  "}",
+  "case ',':",
+  "if len(stack) == 1 {",
+  "skipping = false",
+  "}",
+  "expectKey = !skipping && len(stack) > 0 && stack[len(stack)-1] != nil",
+  "case '\"':",
+  "end, escaped := i+1, false",
+  "for ; end < len(data) && data[end] != '\"';  {",
+  "if data[end] == '\\\\' {",
+  "escaped = true",
+  "end++",
+  "}",
+  "end++",
+  "}",
+  "if end >= len(data) {",
+  "return \"\", false, nil",
+  "}",
+  "if !skipping && w.checkString != nil {",
+  "if err = w.checkString(data[i : end+1]); err != nil {",
+  "return \"\", false, err",
+  "}",
+  "}",
+  "if expectKey {",
+  "key, ok := w.decodeName(data[i:end+1], escaped)",
+  "if !ok {",
+  "return \"\", false, nil",
+  "}",
+  "names := stack[len(stack)-1]",
+  "if _, dup := names[key]; dup {",
+  "return key, true, nil",
+  "}",
+  "names[key] = struct{}{}",
+  "expectKey = false",
+  "skipping = len(stack) == 1 && w.skipMember != nil && w.skipMember(key)",
+  "}",
+  "i = end",
+  "}",
+  "if len(stack) > maxJSONNestingDepth {",
+  "return \"\", false, nil",
+  "}",
+  "}",
+  "return \"\", false, nil"
 ]
 
 def eventcrypto__VerifyAllEventSignatures : List String := [
@@ -1258,6 +1418,45 @@ def eventcrypto__validateMXIDMappingSignatures : List String := [
   "return err"
 ]
 
+def json__CanonicalJSON : List String := [
+  "func func(input []byte) ([]byte, error)",
+  "if !gjson.Valid(string(input)) {",
+  "return nil, BadJSONError{errors.New(\"gjson validation failed\")}",
+  "}",
+  "return CanonicalJSONAssumeValid(input), nil"
+]
+
+def json__CanonicalJSONAssumeValid : List String := [
+  "func func(input []byte) []byte",
+  "input = CompactJSON(input, make([]byte, 0, len(input)))",
+  "return SortJSON(input, make([]byte, 0, len(input)))"
+]
+
+def json__EnforcedCanonicalJSON : List String := [
+  "func func(input []byte, roomVersion RoomVersion) ([]byte, error)",
+  "roomVersionImpl, err := GetRoomVersion(roomVersion)",
+  "if err != nil {",
+  "return nil, err",
+  "}",
+  "if err := roomVersionImpl.CheckCanonicalJSON(input); err != nil {",
+  "return nil, BadJSONError{err}",
+  "}",
+  "return CanonicalJSON(input)"
+]
+
+def json__verifyEnforcedCanonicalJSON : List String := [
+  "func func(input []byte) error",
+  "valid := true",
+  "res := gjson.ParseBytes(input)",
+  "var iter func(key, value gjson.Result) bool",
+  "iter = func(_, value gjson.Result) bool { if value.IsArray() || value.IsObject() { value.ForEach(iter) return true } if value.Num < -9007199254740991 || value.Num > 9007199254740991 { valid = false return false } if value.Type == gjson.Number && strings.ContainsAny(value.Raw, \".eE\") { valid = false return false } if value.Num == 0 && value.Raw == \"-0\" { valid = false return false } return true }",
+  "res.ForEach(iter)",
+  "if !valid {",
+  "return ErrCanonicalJSON",
+  "}",
+  "return nil"
+]
+
 def pdu__ToPDUs : List String := [
   "func func[T PDU](events []T) []PDU",
   "result := make([]PDU, len(events))",
@@ -1294,6 +1493,6 @@ def pdu_eventReference_UnmarshalJSON : List String := [
   "return nil"
 ]
 
-def functions : List String := ["eventV1.go:.newEventFromTrustedJSONV1", "eventV1.go:.newEventFromTrustedJSONWithEventIDV1", "eventV1.go:.newEventFromUntrustedJSONV1", "eventV1.go:.signableEventJSON", "eventV1.go:eventV1.AuthEventIDs", "eventV1.go:eventV1.Content", "eventV1.go:eventV1.Depth", "eventV1.go:eventV1.EventID", "eventV1.go:eventV1.HistoryVisibility", "eventV1.go:eventV1.IsSticky", "eventV1.go:eventV1.JSON", "eventV1.go:eventV1.JoinRule", "eventV1.go:eventV1.MarshalJSON", "eventV1.go:eventV1.Membership", "eventV1.go:eventV1.OriginServerTS", "eventV1.go:eventV1.PowerLevels", "eventV1.go:eventV1.PrevEventIDs", "eventV1.go:eventV1.Redact", "eventV1.go:eventV1.Redacted", "eventV1.go:eventV1.Redacts", "eventV1.go:eventV1.RoomID", "eventV1.go:eventV1.SenderID", "eventV1.go:eventV1.SetUnsigned", "eventV1.go:eventV1.SetUnsignedField", "eventV1.go:eventV1.Sign", "eventV1.go:eventV1.StateKey", "eventV1.go:eventV1.StateKeyEquals", "eventV1.go:eventV1.StickyEndTime", "eventV1.go:eventV1.ToHeaderedJSON", "eventV1.go:eventV1.Type", "eventV1.go:eventV1.Unsigned", "eventV1.go:eventV1.Version", "eventV1.go:eventV1.assumedStickyStartTime", "eventV1.go:eventV1.calculatedStickyEndTime", "eventV2.go:.CheckFields", "eventV2.go:.newEventFromTrustedJSONV2", "eventV2.go:.newEventFromTrustedJSONWithEventIDV2", "eventV2.go:.newEventFromUntrustedJSONV2", "eventV2.go:eventV2.AuthEventIDs", "eventV2.go:eventV2.EventID", "eventV2.go:eventV2.MarshalJSON", "eventV2.go:eventV2.PrevEventIDs", "eventV2.go:eventV2.Redact", "eventV2.go:eventV2.SenderID", "eventV2.go:eventV2.SetUnsigned", "eventV2.go:eventV2.Sign", "eventV2.go:eventV2.populateEventID", "eventV3.go:.checkRoomID", "eventV3.go:.newEventFromTrustedJSONV3", "eventV3.go:.newEventFromTrustedJSONWithEventIDV3", "eventV3.go:.newEventFromUntrustedJSONV3", "eventV3.go:eventV3.AuthEventIDs", "eventV3.go:eventV3.RoomID", "eventV3.go:eventV3.SetUnsigned", "eventV3.go:eventV3.Sign", "event_builder.go:EventBuilder.AddAuthEvents", "event_builder.go:EventBuilder.Build", "event_builder.go:EventBuilder.SetContent", "event_builder.go:EventBuilder.SetUnsigned", "event_builder.go:.eventHashFromEventID", "event_builder.go:.eventReferenceFromEventID", "event_builder.go:.eventReferencesFrom", "event_builder.go:.toEventReference", "eventcrypto.go:.VerifyAllEventSignatures", "eventcrypto.go:.VerifyEventSignatures", "eventcrypto.go:.addContentHashesToEvent", "eventcrypto.go:.checkEventContentHash", "eventcrypto.go:.emptyAuthorisedViaServerName", "eventcrypto.go:.extractAuthorisedViaServerName", "eventcrypto.go:.getMXIDMapping", "eventcrypto.go:.membershipForSignatures", "eventcrypto.go:.referenceOfEvent", "eventcrypto.go:.referenceOfEventForVersion", "eventcrypto.go:.signEvent", "eventcrypto.go:.validateMXIDMappingSignatures", "pdu.go:.ToPDUs", "pdu.go:eventReference.MarshalJSON", "pdu.go:eventReference.UnmarshalJSON"]
+def functions : List String := ["eventV1.go:.newEventFromTrustedJSONV1", "eventV1.go:.newEventFromTrustedJSONWithEventIDV1", "eventV1.go:.newEventFromUntrustedJSONV1", "eventV1.go:.signableEventJSON", "eventV1.go:eventV1.AuthEventIDs", "eventV1.go:eventV1.Content", "eventV1.go:eventV1.Depth", "eventV1.go:eventV1.EventID", "eventV1.go:eventV1.HistoryVisibility", "eventV1.go:eventV1.IsSticky", "eventV1.go:eventV1.JSON", "eventV1.go:eventV1.JoinRule", "eventV1.go:eventV1.MarshalJSON", "eventV1.go:eventV1.Membership", "eventV1.go:eventV1.OriginServerTS", "eventV1.go:eventV1.PowerLevels", "eventV1.go:eventV1.PrevEventIDs", "eventV1.go:eventV1.Redact", "eventV1.go:eventV1.Redacted", "eventV1.go:eventV1.Redacts", "eventV1.go:eventV1.RoomID", "eventV1.go:eventV1.SenderID", "eventV1.go:eventV1.SetUnsigned", "eventV1.go:eventV1.SetUnsignedField", "eventV1.go:eventV1.Sign", "eventV1.go:eventV1.StateKey", "eventV1.go:eventV1.StateKeyEquals", "eventV1.go:eventV1.StickyEndTime", "eventV1.go:eventV1.ToHeaderedJSON", "eventV1.go:eventV1.Type", "eventV1.go:eventV1.Unsigned", "eventV1.go:eventV1.Version", "eventV1.go:eventV1.assumedStickyStartTime", "eventV1.go:eventV1.calculatedStickyEndTime", "eventV2.go:.CheckFields", "eventV2.go:.newEventFromTrustedJSONV2", "eventV2.go:.newEventFromTrustedJSONWithEventIDV2", "eventV2.go:.newEventFromUntrustedJSONV2", "eventV2.go:eventV2.AuthEventIDs", "eventV2.go:eventV2.EventID", "eventV2.go:eventV2.MarshalJSON", "eventV2.go:eventV2.PrevEventIDs", "eventV2.go:eventV2.Redact", "eventV2.go:eventV2.SenderID", "eventV2.go:eventV2.SetUnsigned", "eventV2.go:eventV2.Sign", "eventV2.go:eventV2.populateEventID", "eventV3.go:.checkRoomID", "eventV3.go:.newEventFromTrustedJSONV3", "eventV3.go:.newEventFromTrustedJSONWithEventIDV3", "eventV3.go:.newEventFromUntrustedJSONV3", "eventV3.go:eventV3.AuthEventIDs", "eventV3.go:eventV3.RoomID", "eventV3.go:eventV3.SetUnsigned", "eventV3.go:eventV3.Sign", "event.go:EventValidationError.Error", "event.go:.SplitID", "event.go:.checkID", "event.go:.checkRoomIDField", "event.go:.checkUntrustedEventJSON", "event.go:.duplicateJSONKey", "event.go:.jsonFieldNames", "event_builder.go:EventBuilder.AddAuthEvents", "event_builder.go:EventBuilder.Build", "event_builder.go:EventBuilder.SetContent", "event_builder.go:EventBuilder.SetUnsigned", "event_builder.go:.eventHashFromEventID", "event_builder.go:.eventReferenceFromEventID", "event_builder.go:.eventReferencesFrom", "event_builder.go:.toEventReference", "event.go:jsonWalk.duplicateName", "eventcrypto.go:.VerifyAllEventSignatures", "eventcrypto.go:.VerifyEventSignatures", "eventcrypto.go:.addContentHashesToEvent", "eventcrypto.go:.checkEventContentHash", "eventcrypto.go:.emptyAuthorisedViaServerName", "eventcrypto.go:.extractAuthorisedViaServerName", "eventcrypto.go:.getMXIDMapping", "eventcrypto.go:.membershipForSignatures", "eventcrypto.go:.referenceOfEvent", "eventcrypto.go:.referenceOfEventForVersion", "eventcrypto.go:.signEvent", "eventcrypto.go:.validateMXIDMappingSignatures", "json.go:.CanonicalJSON", "json.go:.CanonicalJSONAssumeValid", "json.go:.EnforcedCanonicalJSON", "json.go:.verifyEnforcedCanonicalJSON", "pdu.go:.ToPDUs", "pdu.go:eventReference.MarshalJSON", "pdu.go:eventReference.UnmarshalJSON"]
 
 end VPins.C03
